@@ -586,6 +586,9 @@ def _run(ctx: Ctx):
             ctx.violation("rating-stars", f"rating {x!r} displays {text!r}", {"value": repr(x), "format": "rating"})
     ctx.correspond("star rating: 0..5 and out-of-range values", req, out, exhaustive=True)
 
+    # --- format changed again on the same cell after its text was read --------------------------------------------------
+    reformat_sequences(ctx, specials[::7] + seeded[:200])
+
     # --- custom number patterns, text patterns, dispatch (checks/c13_custom.py) -------------------------------------------
     from checks import c13_custom
     c13_custom.run_custom(ctx, specials, seeded)
@@ -600,10 +603,103 @@ def _run(ctx: Ctx):
     ctx.count("assumption: sigfig(v, 15) is the identity on <=15-digit values", len(specials) + len(seeded))
 
 
+def reformat_sequences(ctx: Ctx, values):
+    """the displayed text is a function of (value, format): a cell whose format is changed again after its displayed text
+    was read (no write in between, same Cell object) must display exactly what a freshly written cell with that format
+    displays - in the open document and, for the last format, after save + reopen."""
+    import os
+    import tempfile
+    from numbers_parser import Document, FractionAccuracy, NegativeNumberStyle
+    rng = ctx.rng
+    fresh = _Impl()
+
+    def spec():
+        k = rng.choice(["number", "number", "percentage", "currency", "scientific", "base", "fraction", "rating"])
+        if k in ("number", "percentage"):
+            kw = {"decimal_places": rng.choice([None, 0, 1, 2, 4, 7]), "show_thousands_separator": rng.random() < 0.5,
+                  "negative_style": NegativeNumberStyle(rng.randrange(4))}
+        elif k == "currency":
+            kw = {"currency_code": rng.choice(["USD", "EUR", "GBP", "JPY"]), "decimal_places": rng.choice([0, 2, 3]),
+                  "use_accounting_style": rng.random() < 0.3}
+        elif k == "scientific":
+            kw = {"decimal_places": rng.choice([0, 2, 5])}
+        elif k == "base":
+            kw = {"base": rng.choice([2, 8, 16, 36]), "base_places": rng.choice([0, 4]), "base_use_minus_sign": rng.random() < 0.5}
+        elif k == "fraction":
+            kw = {"fraction_accuracy": rng.choice(list(FractionAccuracy))}
+        else:
+            kw = {}
+        return k, kw
+    n = 120 if ctx.quick else 3000
+    for i in range(n):
+        x = rng.choice(values)
+        if isinstance(x, float) and abs(x) >= 10 ** 15:
+            continue
+        doc = Document(num_header_rows=0, num_header_cols=0, num_rows=2, num_cols=2)
+        table = doc.sheets[0].tables[0]
+        try:
+            table.write(0, 0, x)
+        except Exception:  # noqa: BLE001
+            continue
+        seq, last = [], None
+        for _ in range(rng.randrange(2, 5)):
+            k, kw = spec()
+            if k in ("base", "rating") and not (isinstance(x, int) or float(x).is_integer()) and k == "rating":
+                continue
+            log = [k, {a: (v.name if hasattr(v, "name") else v) for a, v in kw.items()}]
+            try:
+                table.set_cell_formatting(0, 0, k, **kw)
+                got = table.cell(0, 0).formatted_value
+            except Exception as e:  # noqa: BLE001
+                got = "!raised " + exc_name(e)
+            want = fresh.show(x, k, **kw)
+            want = want[0] if want[0] is not None else "!raised " + want[1].split(" ")[-1]
+            seq.append(log)
+            ctx.count("format changed again on a cell whose displayed text was already read: text vs a freshly written cell", 1)
+            if got != want:
+                ctx.violation("display-depends-on-format-history",
+                              f"value {x!r}: formats applied in turn to one cell {seq}; after the last one the cell displays "
+                              f"{got!r}, a freshly written cell with that format displays {want!r}",
+                              {"value": repr(x), "format_sequence": seq})
+                break
+            last = (k, kw, want)
+        if last is not None and i % 4 == 0:
+            fd, path = tempfile.mkstemp(suffix=".numbers")
+            os.close(fd)
+            try:
+                doc.save(path)
+                got = Document(path).sheets[0].tables[0].cell(0, 0).formatted_value
+            except Exception as e:  # noqa: BLE001
+                got = "!raised " + exc_name(e)
+            finally:
+                os.unlink(path)
+            if got != last[2] and not last[2].startswith("!raised"):
+                ctx.violation("display-depends-on-format-history",
+                              f"value {x!r}: formats applied in turn {seq}; after save and reopen the cell displays {got!r}, "
+                              f"a freshly written cell with the last format {last[2]!r}", {"value": repr(x), "format_sequence": seq, "reopened": True})
+        ctx.mark(("reformat", i))
+
+
 def replay(data):
     warnings.showwarning = lambda *a, **k: None
     from numbers_parser import FractionAccuracy, NegativeNumberStyle
     i = dict(data.get("input", {}))
+    if "format_sequence" in i:
+        from numbers_parser import Document
+        x = eval(i["value"], {"__builtins__": {}}, {})
+        doc = Document(num_header_rows=0, num_header_cols=0, num_rows=2, num_cols=2)
+        table = doc.sheets[0].tables[0]
+        table.write(0, 0, x)
+        out = []
+        for k, kw in i["format_sequence"]:
+            kw = dict(kw)
+            if "negative_style" in kw:
+                kw["negative_style"] = NegativeNumberStyle[kw["negative_style"]]
+            if "fraction_accuracy" in kw:
+                kw["fraction_accuracy"] = FractionAccuracy[kw["fraction_accuracy"]]
+            table.set_cell_formatting(0, 0, k, **kw)
+            out.append([k, table.cell(0, 0).formatted_value, _Impl().show(x, k, **kw)[0]])
+        return {"write": repr(x), "per step [format, same cell displays, fresh cell displays]": out}
     if str(i.get("format", "")).startswith("custom"):
         from checks import c13_custom
         return c13_custom.replay_custom(i)
